@@ -2015,3 +2015,118 @@ func c18R6(c *Ctx, r *Report) {
 	r.Check(nameTest, rule, layout.Name(), "field names are compared position by position", c.pos(layout.Decl.Pos()), "fields are matched by name only: a different declaration order swaps the values")
 	r.Check(typeTest, rule, layout.Name(), "field types must be equal", c.pos(layout.Decl.Pos()), "convertible field types are accepted although the bytes are copied unconverted")
 }
+
+// ---- C01.R13: && / || short-circuit ----------------------------------------------------------------------------
+
+func init() {
+	lateInits = append(lateInits, func() {
+		props["C01"].Quick = append(props["C01"].Quick, c01R13)
+		props["C02"].Quick = append(props["C02"].Quick, c01R13)
+		props["C01"].Explanation += " (R13) in MIR lowering the right operand of && / || is lowered only inside the helper reached from the AND/OR test, after the current block was terminated by a conditional branch on the left operand; the result is a phi of the two operands."
+	})
+}
+
+func c01R13(c *Ctx, r *Report) {
+	const rule = "C01.R13"
+	r.Describe(rule, "mir/gen lowerExpr, case BinaryExpr: a test on AND_TOKEN/OR_TOKEN returns through a helper before the clause lowers e.Y; the helper terminates the origin block with a CondBr on the left operand before it lowers e.Y and ends in a Phi")
+	le := c.LookupFn(pkgMIRGen, "(*functionBuilder).lowerExpr")
+	if !r.Anchor(rule, le != nil, "mir/gen lowerExpr") {
+		return
+	}
+	info := le.Info()
+	var clause *ast.CaseClause
+	ast.Inspect(le.Decl.Body, func(x ast.Node) bool {
+		if cc, ok := x.(*ast.CaseClause); ok && clause == nil {
+			for _, t := range caseTypes(info, cc) {
+				if nt := namedOf(t); nt != nil && nt.Obj().Name() == "BinaryExpr" {
+					clause = cc
+				}
+			}
+		}
+		return true
+	})
+	if !r.Anchor(rule, clause != nil, "lowerExpr: case *hir.BinaryExpr") {
+		return
+	}
+	lowersY := func(inf *types.Info, n ast.Node) token.Pos {
+		var at token.Pos
+		ast.Inspect(n, func(x ast.Node) bool {
+			if cl, ok := x.(*ast.CallExpr); ok && isCallTo(inf, cl, le.Obj) && len(cl.Args) == 1 && strings.HasSuffix(exprStr(cl.Args[0]), ".Y") && at == token.NoPos {
+				at = cl.Pos()
+			}
+			return true
+		})
+		return at
+	}
+	var helper *Fn
+	var gatePos token.Pos
+	for _, st := range clause.Body {
+		ifs, ok := st.(*ast.IfStmt)
+		if !ok {
+			continue
+		}
+		and, or := false, false
+		ast.Inspect(ifs.Cond, func(x ast.Node) bool {
+			if e, ok := x.(ast.Expr); ok {
+				if o := constObj(info, e); o != nil {
+					if o.Name() == "AND_TOKEN" {
+						and = true
+					}
+					if o.Name() == "OR_TOKEN" {
+						or = true
+					}
+				}
+			}
+			return true
+		})
+		if !and || !or {
+			continue
+		}
+		for _, bs := range ifs.Body.List {
+			if ret, ok := bs.(*ast.ReturnStmt); ok && len(ret.Results) == 1 {
+				if cl, ok := ast.Unparen(ret.Results[0]).(*ast.CallExpr); ok {
+					if hf := c.FnOf(callee(info, cl)); hf != nil && hf.Decl != nil && hf.Decl.Body != nil {
+						helper, gatePos = hf, ifs.Pos()
+					}
+				}
+			}
+		}
+	}
+	var firstY token.Pos
+	for _, st := range clause.Body {
+		if p := lowersY(info, st); p != token.NoPos && firstY == token.NoPos {
+			firstY = p
+		}
+	}
+	r.Check(helper != nil && firstY != token.NoPos && gatePos < firstY, rule, le.Name(), "&& / || leave the clause before the right operand is lowered", c.pos(clause.Pos()),
+		"both operands of && / || are lowered unconditionally: `i < len && a[i] > 0` evaluates a[i] for an out-of-range i and panics, `done || step()` calls step() although done is true")
+	if helper == nil {
+		return
+	}
+	hinfo := helper.Info()
+	var condBrPos, yPos, phiPos token.Pos
+	ast.Inspect(helper.Decl.Body, func(x ast.Node) bool {
+		if cl, ok := x.(*ast.CompositeLit); ok {
+			if nt := namedOf(hinfo.TypeOf(cl)); nt != nil {
+				switch nt.Obj().Name() {
+				case "CondBr":
+					// must branch on the left operand (a parameter of the helper)
+					for _, e := range cl.Elts {
+						if kv, ok := e.(*ast.KeyValueExpr); ok && exprStr(kv.Key) == "Cond" {
+							if o := objOf(hinfo, kv.Value); o != nil && isParamOf(helper, o) && (condBrPos == token.NoPos || cl.Pos() > condBrPos) {
+								condBrPos = cl.Pos()
+							}
+						}
+					}
+				case "Phi":
+					phiPos = cl.Pos()
+				}
+			}
+		}
+		return true
+	})
+	yPos = lowersY(hinfo, helper.Decl.Body)
+	r.Check(condBrPos != token.NoPos && yPos != token.NoPos && condBrPos < yPos, rule, helper.Name(), "conditional branch on the left operand before the right operand is lowered", c.pos(helper.Decl.Pos()),
+		"the right operand is lowered into the same block as the left one (or the branch does not test the left operand)")
+	r.Check(phiPos != token.NoPos && phiPos > yPos, rule, helper.Name(), "result is a phi after both paths", c.pos(helper.Decl.Pos()), "the value of the expression is not merged from the two paths")
+}
